@@ -17,7 +17,6 @@
 import Nq.Basic
 import Nq.Quote
 import Nq.Gen.Consts
-import Nq.Gen.StripVdom
 
 namespace Nq.Bounce
 open Nq
@@ -138,16 +137,13 @@ def userStripGo (es : List (Bytes × Bytes)) : Bytes → Bytes → Option Bytes
       | none => userStripGo es (pre ++ [c]) r
     else userStripGo es (pre ++ [c]) r
 
-/-- `stripvdomprepend(recip)`: nothing without '@'; nothing for a domain in `locals`; (`whole`: nothing
-for a recipient that has an exception entry of its own — the statement of notes/C14-fix-3.diff;) then
-the virtual-user loop; then the domain loop.  `whole = false` transcribes the function without that
-statement. -/
-def stripvdomW (whole : Bool) (t : Tables) (recip : Bytes) : Bytes :=
+/-- `stripvdomprepend(recip)`: nothing without '@'; nothing for a domain in `locals`; then the
+virtual-user loop; then the domain loop -/
+def stripvdom (t : Tables) (recip : Bytes) : Bytes :=
   match domainOf recip with
   | none => recip
   | some d =>
     if cmMember t.locals d then recip else
-    if whole && cmLookup t.vdoms recip == some [] then recip else
     match userStripGo t.vdoms [] recip with
     | some r => r
     | none =>
@@ -155,10 +151,6 @@ def stripvdomW (whole : Bool) (t : Tables) (recip : Bytes) : Bytes :=
       | none => recip
       | some p =>
         if !p.isEmpty && (p ++ [DASH]).isPrefixOf recip then recip.drop (p.length + 1) else recip
-
-/-- `stripvdomprepend(recip)` of the source tree being checked: whether it has the whole-recipient
-lookup is read from qmail-send.c by the translator (tools/extractors/c14.py) -/
-def stripvdom (t : Tables) (recip : Bytes) : Bytes := stripvdomW Gen.stripWholeFirst t recip
 
 /-! ### addbounce() -/
 
@@ -194,18 +186,31 @@ def scanDown : Nat → Bytes → Bytes
 def scanInPlace (s : Bytes) : Bytes := scanDown (s.length - 2) s
 
 
-/-- the bytes `addbounce(id,recip,report)` appends to `bounce/<id>` -/
-def addbounceText (es : Tables) (recip report : Bytes) : Bytes :=
-  let t1 := (LANGLE :: stripvdom es recip).map lf2us        -- "<" + stripped recipient, LF -> '_'
+/-- the address `addbounce(id,recip,report,flagstrip)` names:
+`flagstrip ? stripvdomprepend(recip) : recip` -/
+def nameOf (es : Tables) (flagstrip : Bool) (recip : Bytes) : Bytes :=
+  if flagstrip then stripvdom es recip else recip
+
+/-- the bytes `addbounce` appends to `bounce/<id>` once the name is chosen -/
+def addbounceNamed (name report : Bytes) : Bytes :=
+  let t1 := (LANGLE :: name).map lf2us                      -- "<" + name, LF -> '_'
   let t2 := t1 ++ [RANGLE, COLON, LF]                       -- ">:\n"
   let t3 := t2 ++ report
   let t4 := if !report.isEmpty && report.getLast? != some LF then t3 ++ [LF] else t3
   scanFrom false t4 ++ [LF]
 
+/-- the bytes `addbounce(id,recip,report,flagstrip)` appends to `bounce/<id>` -/
+def addbounceText (es : Tables) (flagstrip : Bool) (recip report : Bytes) : Bytes :=
+  addbounceNamed (nameOf es flagstrip recip) report
+
+/-- one recorded failure: `flagstrip` (`del_dochan` passes `c == 0`: the delivery was on the local
+channel), the recipient as stored in the channel file, the report -/
+abbrev Fail := Bool × Bytes × Bytes
+
 /-- the whole `bounce/<id>` file after the listed failures, in order -/
-def bounceFile (es : Tables) : List (Bytes × Bytes) → Bytes
+def bounceFile (es : Tables) : List Fail → Bytes
   | [] => []
-  | (r, t) :: fs => addbounceText es r t ++ bounceFile es fs
+  | (fl, r, t) :: fs => addbounceText es fl r t ++ bounceFile es fs
 
 /-! ### del_dochan(): from the spawner's report to the addbounce() call -/
 
